@@ -46,7 +46,7 @@ func freshOutcomes(ops []Op, ll []*LLValidator) ([]Outcome, error) {
 		if err != nil {
 			return nil, fmt.Errorf("fresh-process oracle failed: %v\n%s", err, tail(errb.String(), 1500))
 		}
-	case <-time.After(5 * time.Minute):
+	case <-time.After(20 * time.Minute):
 		_ = cmd.Process.Kill()
 		return nil, fmt.Errorf("fresh-process oracle timed out")
 	}
